@@ -429,3 +429,18 @@ Proof.
 Qed.
 
 End RD2.
+
+(* E without the guard is FALSE: Spec.wstep accepts every signal definition that passes its identity checks, while
+   jls_core_signal_def_align (core.c: "entries_per_summary too big", JLS_ERROR_PARAMETER_INVALID = 5) refuses
+   entries_per_summary = 2^32 - 1; the byte-exact model (and DefsModel) follow the C.  Spec.wstep is the coarser model
+   here (df_prog_ok / df_align_ok is exactly the missing condition). *)
+Definition rd_cex_src : srcdef :=
+  {| so_id := 3; so_name := SBytes [97; 98]; so_vendor := SNull; so_model := SBytes []; so_version := SNull; so_serial := SNull |}.
+Definition rd_cex_sig : sigdef :=
+  {| sg_id := 5; sg_src := 3; sg_type := JLS_SIGNAL_TYPE_FSR; sg_dtype := JLS_DATATYPE_U8; sg_rate := 1000; sg_spd := 32; sg_sdf := 32;
+     sg_eps := 4294967295; sg_sumdf := 10; sg_adf := 10; sg_udf := 10; sg_name := SBytes [120]; sg_units := SNull |}.
+Theorem rd_run_accept_unguarded_refuted :
+  snd (wm_run_full (fun _ _ => (0, 0, 0, 0)) (fun _ _ => (0, 0, 0, 0)) [WSrc rd_cex_src; WSig rd_cex_sig]) = [0; 5] /\
+  snd (run_spec content0 [WSrc rd_cex_src; WSig rd_cex_sig]) = [true; true] /\
+  df_align_ok rd_cex_sig = false.
+Proof. split; [vm_compute; reflexivity|]. split; vm_compute; reflexivity. Qed.
